@@ -17,7 +17,8 @@ RULE_TEXT = ("C07-K buffer discipline of process, decided on the linear normal f
              "K5 after the scan read' = read_end; K7 the response buffer is written, flushed and cleared per message (typestate as in C10-T4); K6 consumed bytes at the front are reclaimed (copy_within(proc..read_end, 0), "
              "read' = read_end - proc, proc' = 0) whenever proc > 0 before fullness is judged, and input is discarded "
              "(read' = 0 without copy) only when proc = 0 and the buffer is full. C07-A: every future is awaited in place, "
-             "no hand-written poll machinery (a Pending can only suspend, never change results).")
+             "no hand-written poll machinery (a Pending can only suspend, never change results)."
+             " K8: nothing in process writes into the command buffer except Adapter::read and the compaction. K5/K6 accept lazy compaction: pending bytes may stay in place while the full-buffer test on read_end fails, both offsets return to 0 when nothing is pending.")
 
 PROCESS = "microscpi::interface::Interface::process"
 ADAPTER = "microscpi::interface::Adapter::"
@@ -69,6 +70,24 @@ def rule_K(ck, lib, pfx):
     R_out = dict(dst[2][2])["start"]
     read_id = R_out[1]
     buf_id = buf[1]
+    # K8: the received bytes are what the handlers see: nothing in process writes into the command buffer except the
+    # transport's read and the compaction (a byte rewritten in place - a CR turned into a terminator, a control byte blanked -
+    # changes payloads, and at a position that depends on where a read happens to end)
+    writers = {}
+    for x in exits:
+        for e in x.effects:
+            if e[0] == "store":
+                root = e[1]
+                while isinstance(root, tuple) and root and root[0] in ("index", "field", "deref"):
+                    root = root[1]
+                if isinstance(root, tuple) and len(root) > 1 and root[0] in ("loopvar", "local") and root[1] == buf_id:
+                    writers["store %s := %s" % (show_term(S(e[1]))[:120], show_term(S(e[2]))[:40] if len(e) > 2 and isinstance(e[2], tuple) else "?")] = e
+            if e[0] == "call" and e[1] not in (ADAPTER + "read", RUN) and not e[1].endswith("::copy_within"):
+                for a in e[2]:
+                    if isinstance(a, tuple) and a and a[0] in ("refmut", "mutref") and any(isinstance(u, tuple) and len(u) > 1 and u[0] in ("loopvar", "local") and u[1] == buf_id for u in pathsum.subterms(a)):
+                        writers["&mut to %s" % e[1].split("::")[-1]] = e
+    ck.judge(not writers, pfx + "-K8", "process:buffer-writers", "the command buffer is written by Adapter::read and copy_within only",
+             "process also writes into the command buffer: %s" % sorted(writers)[:3])
     data = runs.pop()
     import slicelin
     kind_, P_in, last_ = slicelin.rng_parts(data[2]) if data[0] == "index" else (None, None, None)
